@@ -318,7 +318,8 @@ def macros(s, variant):
     m = (["MWithEnter"] if s["managed"] else []) + ok_call
     if variant == "late":
         # the death is only handled after call 1 returned: same as an idle death after call 1
-        return "show (drive %d %d [%s])" % (nj, 2 * common.NCPU + 1, "; ".join(m + ok_call + kills + ["MMgr 3"] + ok_call + ok_call))
+        call1 = ["MCall 1 1 []", "MRounds %d" % R] if kind == "submit_window" else ok_call
+        return "show (drive %d %d [%s])" % (nj, 2 * common.NCPU + 1, "; ".join(m + call1 + kills + ["MMgr 3"] + ok_call + ok_call))
     if variant in MASKS:
         m += ["MMask true"]
     if kind in TRAP:
@@ -383,7 +384,8 @@ def agrees(s, r, p):
         return False
     if cl != p["classes"]:
         return False
-    if any(c == 0 and ln != s["n_tasks"] for c, ln in zip(p["classes"], p["lens"])):
+    want = [1 if (k == 1 and s["kind"] == "submit_window") else s["n_tasks"] for k in range(len(p["classes"]))]
+    if any(c == 0 and ln != w for c, ln, w in zip(p["classes"], p["lens"], want)):
         return False
     if s["kind"] != "none":
         failing = [k for k in (1, 2, 3) if cl[k] != 0]
